@@ -6,14 +6,14 @@ SUITE = "errors"
 LEAN_TARGETS = ["TypedpyModel.Props.C18", "TypedpyModel.Audit.C18"]
 AUDIT = "C18"
 THEOREMS = [
-    "Typedpy.C18.render_parse_exact", "Typedpy.C18.render_parse", "Typedpy.C18.render_parse_gotFirst",
-    "Typedpy.C18.render_parse_field_noNL", "Typedpy.C18.field_chars_necessary",
-    "Typedpy.C18.newline_value_loses_field", "Typedpy.C18.newline_value_gotFirst_keeps_field",
-    "Typedpy.C18.newline_problem_loses_field", "Typedpy.C18.semicolon_value_demoted",
-    "Typedpy.C18.non_ascii_name_loses_field", "Typedpy.C18.anon_message_no_field",
-    "Typedpy.C18.json_list_text_no_field", "Typedpy.C18.deser_foreign_texts_no_field", "Typedpy.C18.transform_examples",
-    "Typedpy.C18.readable_raises_iff", "Typedpy.C18.readable_total", "Typedpy.C18.readable_total_on_rejections",
-    "Typedpy.C18.readable_raises_example",
+    "Typedpy.C18.field_chars_necessary", "Typedpy.C18.render_parse_exact", "Typedpy.C18.render_parse",
+    "Typedpy.C18.render_parse_gotFirst", "Typedpy.C18.empty_problem_example",
+    "Typedpy.C18.newline_value_keeps_field", "Typedpy.C18.newline_problem_keeps_field",
+    "Typedpy.C18.semicolon_value_demoted", "Typedpy.C18.non_ascii_name_keeps_field",
+    "Typedpy.C18.non_word_name_loses_field", "Typedpy.C18.combining_mark_name_loses_field",
+    "Typedpy.C18.deser_foreign_texts_no_field", "Typedpy.C18.transform_examples",
+    "Typedpy.C18.readable_raises_iff", "Typedpy.C18.readable_total",
+    "Typedpy.C18.readable_total_on_rejections", "Typedpy.C18.readable_raises_example",
     "Typedpy.C18.collect_all_exact", "Typedpy.C18.fail_fast_member", "Typedpy.C18.statement_partial",
     "Typedpy.C18.statement_false", "Typedpy.C18.construct_example",
 ]
@@ -28,6 +28,7 @@ RULE = ("flat classes (1..5 fields: Integer/Number/Float incl. sign variants, St
         "Oracle: the property statement on the real results with the invalid set computed by Lean `validate`.")
 ASSUMPTIONS = [
     "Python's json module is an oracle (Codec): the only law assumed in theorems is loads(dumps(xs)) = xs on lists of strings (explicit hypothesis); the driver instantiates it with Lean.Data.Json",
+    "Python's str.isalnum (what \\w matches) is an oracle (Word): assumed only to contain ASCII letters/digits and not ':'; the harness supplies its answers for the non-ASCII characters of each message",
     "value and problem TEXTS are universally quantified parameters of the model (not predicted); the driver reads them off the real message; predicted are exception class, class prefix, path, suffix, shape, order and count",
     "deserialization is not modelled at the site level: for Deserializer runs the correspondence covers the helper's parse of the real message, and the property oracle runs with the invalid set of the lifted arguments",
     "PYTHONHASHSEED=0; the class dump lists fields in the real signature order",
